@@ -540,10 +540,18 @@ def value_text(path: Path, index: int, expr, **kw) -> str:
 
 
 def event_index(path: Path, event: Event) -> int:
+    pos = event.data.get('pos')
+    if pos is not None and pos < len(path.events) and path.events[pos] is event:
+        return pos
     for pos, candidate in enumerate(path.events):
         if candidate is event:
             return pos
     return len(path.events)
+
+
+def text_at(path: Path, event: Event, expr) -> str:
+    """text of ``expr`` as evaluated at ``event``, locals replaced by what reaches them"""
+    return value_text(path, event_index(path, event), expr)
 
 
 # ------------------------------------------------------ order-preserving maps
